@@ -1,6 +1,7 @@
 import Std.Tactic.BVDecide
 import Usual.Gen.C11
 import Usual.C11.Utf8
+import UsualProofs.Props.C11
 /-!
 # C11 bridge: what `usual/utf8.c` says today = the hand model
 
@@ -39,6 +40,7 @@ theorem bridge_validate_seq (rd : Nat → BitVec 8) (avail : Nat) :
   simp only [gt_iff_lt, Nat.lt_succ_iff]
   obtain ⟨a1, a2, a3, ha1, ha2, ha3⟩ := avail_atoms avail
   simp only [ha1, ha2, ha3, Bool.decide_eq_true]
+  clear ha1 ha2 ha3
   bv_decide
 
 theorem nat_eq_of_bv {a b : Nat} (ha : a < 256) (hb : b < 256)
@@ -56,6 +58,7 @@ theorem bridge_get_char_ret (rd : Nat → BitVec 8) (avail : Nat) :
   simp only [gt_iff_lt, Nat.lt_succ_iff]
   obtain ⟨a1, a2, a3, ha1, ha2, ha3⟩ := avail_atoms avail
   simp only [ha1, ha2, ha3, Bool.decide_eq_true]
+  clear ha1 ha2 ha3
   bv_decide
 
 /-- number of bytes `utf8_get_char` advances `*src_p` -/
@@ -67,6 +70,7 @@ theorem bridge_get_char_adv (rd : Nat → BitVec 8) (avail : Nat) :
   simp only [gt_iff_lt, Nat.lt_succ_iff]
   obtain ⟨a1, a2, a3, ha1, ha2, ha3⟩ := avail_atoms avail
   simp only [ha1, ha2, ha3, Bool.decide_eq_true]
+  clear ha1 ha2 ha3
   apply nat_eq_of_bv
   · repeat' split
     all_goals decide
@@ -91,5 +95,60 @@ theorem bridge_put_char (room : Nat) (c : BitVec 32) :
   repeat' split
   all_goals simp only [Prod.mk.injEq, List.cons.injEq, and_true, true_and, Nat.reduceAdd]
   all_goals bv_decide
+
+/-! ## the headline statements, transported to the definitions generated from the C source -/
+
+open Usual.Gen.C11 in
+/-- `utf8_validate_seq` *as translated from utf8.c* returns `n ≠ 0` iff the `n` bytes at the
+pointer lie before `end`, are one row of Table 3-7 and are not NUL. -/
+theorem gen_validate_seq_accepts_iff (rd : Nat → BitVec 8) (avail n : Nat) (ha : 1 ≤ avail)
+    (hn : n ≠ 0) :
+    (utf8_validate_seq rd avail).toNat = n ↔ n ≤ avail ∧ WF (window rd n) ∧ window rd n ≠ [0#8] := by
+  rw [bridge_validate_seq]; exact UsualProps.C11.validateSeq_accepts_iff rd avail n ha hn
+
+open Usual.Gen.C11 in
+theorem gen_get_char_wellformed (rd : Nat → BitVec 8) (avail n : Nat) (hn : n ≤ avail)
+    (h : WF (window rd n)) :
+    utf8_get_char rd avail = (BitVec.ofNat 32 (decode (window rd n)), n) := by
+  rw [bridge_get_char]; exact UsualProps.C11.getChar_wellformed rd avail n hn h
+
+open Usual.Gen.C11 in
+theorem gen_get_char_illformed (rd : Nat → BitVec 8) (avail : Nat) (ha : 1 ≤ avail)
+    (h : ∀ n, n ≤ avail → ¬ WF (window rd n)) :
+    (utf8_get_char rd avail).1.toInt = -((rd 0).toNat : Int) ∧ (utf8_get_char rd avail).2 = 1 := by
+  rw [bridge_get_char]; exact (UsualProps.C11.getChar_illformed rd avail ha h).2
+
+open Usual.Gen.C11 in
+theorem gen_get_char_frame (rd1 rd2 : Nat → BitVec 8) (avail : Nat) (ha : 1 ≤ avail)
+    (h : ∀ i, i < avail → rd1 i = rd2 i) : utf8_get_char rd1 avail = utf8_get_char rd2 avail := by
+  rw [bridge_get_char, bridge_get_char]; exact UsualProps.C11.getChar_frame rd1 rd2 avail ha h
+
+open Usual.Gen.C11 in
+theorem gen_validate_seq_frame (rd1 rd2 : Nat → BitVec 8) (avail : Nat) (ha : 1 ≤ avail)
+    (h : ∀ i, i < avail → rd1 i = rd2 i) :
+    utf8_validate_seq rd1 avail = utf8_validate_seq rd2 avail := by
+  rw [bridge_validate_seq, bridge_validate_seq]
+  exact UsualProps.C11.validateSeq_frame rd1 rd2 avail ha h
+
+open Usual.Gen.C11 in
+/-- put-then-get on the translated functions is the identity on scalar values -/
+theorem gen_put_get_roundtrip (room : Nat) (c : BitVec 32) (hs : isScalar c.toNat)
+    (hr : encLen c.toNat ≤ room) :
+    utf8_get_char (rdOf (utf8_put_char room c).2.2) (utf8_put_char room c).2.2.length
+      = (c, (utf8_put_char room c).2.1) := by
+  rw [bridge_put_char, bridge_get_char]
+  exact UsualProps.C11.put_get_roundtrip_exact room c hs hr
+
+open Usual.Gen.C11 in
+theorem gen_put_char_respects_room (room : Nat) (c : BitVec 32) :
+    (utf8_put_char room c).2.1 = (utf8_put_char room c).2.2.length ∧
+    (utf8_put_char room c).2.2.length ≤ room := by
+  rw [bridge_put_char]; exact UsualProps.C11.putChar_respects_room room c
+
+open Usual.Gen.C11 in
+theorem gen_seq_size_agrees (rd : Nat → BitVec 8) (avail : Nat)
+    (h : utf8_validate_seq rd avail ≠ 0#32) : utf8_seq_size (rd 0) = utf8_validate_seq rd avail := by
+  rw [bridge_validate_seq] at h ⊢; rw [bridge_seq_size]
+  exact UsualProps.C11.seqSize_agrees rd avail h
 
 end UsualProofs.Bridge.C11
